@@ -147,10 +147,11 @@ impl WithT for Run<'_> {
                 VOp::Connect(pe, p) => {
                     let peer = PEERS[*pe as usize % 3];
                     let port = PORTS[*p as usize % 3];
-                    // not generated: connecting while a REQUEST of the same peer for the same port is
-                    // still waiting to be polled (it would become a REQUEST for an existing connection)
-                    // (likewise any other packet sent for a connection that did not exist yet)
-                    if expected_polls.iter().any(|(q, _)| (q.src_cid, q.src_port) == peer && q.dst_port == port && q.dst_cid == GUEST_CID) {
+                    // not generated: connecting while a non-REQUEST packet that the same peer sent for
+                    // the same port, when the connection did not exist yet, is still waiting to be
+                    // polled (its payload and credit were made up for an unknown connection). A pending
+                    // REQUEST is fine: it becomes a REQUEST for an existing connection (see Poll).
+                    if expected_polls.iter().any(|(q, _)| q.op != 1 && (q.src_cid, q.src_port) == peer && q.dst_port == port && q.dst_cid == GUEST_CID) {
                         continue;
                     }
                     let r = g!(what, mgr.connect(VsockAddr { cid: peer.0, port: peer.1 }, port));
